@@ -604,7 +604,7 @@ pub fn run(ctx: &mut Ctx) {
     let nprog = progs.len();
     let replays = Cell::new(0u64);
 
-    let cases = tier.pick(260, 6000);
+    let cases = tier.pick(1500, 30000);
     ctx.check(
         "replay-twice-in-process",
         cases,
@@ -621,7 +621,7 @@ pub fn run(ctx: &mut Ctx) {
         },
     );
 
-    let fresh_cases = tier.pick(6, 4 * nprog as u32);
+    let fresh_cases = tier.pick(8, 4 * nprog as u32);
     let per_child = tier.pick(6usize, 40usize);
     let prop = ctx.prop().to_string();
     ctx.check(
